@@ -15,6 +15,7 @@ package engine
 import (
 	"bufio"
 	"crypto/sha256"
+	"errors"
 	"fmt"
 	"math/rand"
 	"os"
@@ -66,8 +67,11 @@ type gop struct {
 	replyK   byte   // express: '-' none, 'd' Data (replyNm, replyCid) / 'n' Nack (reason replyCid) fed back by the face during Send
 	replyNm  []int
 	replyCid int
-	delay    int  // data/nack: the first timer cancel made while the packet is processed takes this many ms (0 = none)
-	auto     bool // appended by the harness (run-down of all timers), not part of the generated history
+	ns       int       // adv: additional nanoseconds
+	sendFail bool      // express: face.Send fails
+	during   *nestSpec // express: another Interest is expressed while Send is on the stack
+	delay    int       // data/nack: the first timer cancel made while the packet is processed takes this many ms (0 = none)
+	auto     bool      // appended by the harness (run-down of all timers), not part of the generated history
 }
 
 func nameTxt(n []int) string {
@@ -107,6 +111,14 @@ func lifeTxt(l int) string {
 	return strconv.Itoa(l)
 }
 
+// lifeNs: a lifetime (ms in the gop) as written into the trace (ns)
+func lifeNs(l int) string {
+	if l < 0 {
+		return "-"
+	}
+	return strconv.FormatInt(int64(l)*1000000, 10)
+}
+
 func parseLife(s string) int {
 	if s == "-" {
 		return -1
@@ -134,6 +146,12 @@ func (g gop) String() string {
 		} else if g.replyK == 'n' {
 			rep = fmt.Sprintf(" reply=n:%d", g.replyCid)
 		}
+		if g.sendFail {
+			rep += " sendfail=1"
+		}
+		if g.during != nil {
+			rep += fmt.Sprintf(" during=%s:%s:%d", nameTxt(g.during.name), b01(g.during.cbp), g.during.life)
+		}
 		return fmt.Sprintf("express n=%s cbp=%s dig=%s life=%s nest=%s%s", nameTxt(g.name), b01(g.cbp), dig, lifeTxt(g.life), nest, rep)
 	case "data":
 		if g.delay > 0 {
@@ -154,6 +172,9 @@ func (g gop) String() string {
 	case "adv":
 		if g.auto {
 			return fmt.Sprintf("adv ms=%d auto=1", g.ms)
+		}
+		if g.ns != 0 {
+			return fmt.Sprintf("adv ms=%d ns=%d", g.ms, g.ns)
 		}
 		return fmt.Sprintf("adv ms=%d", g.ms)
 	case "attach":
@@ -228,6 +249,17 @@ func parseGop(line string) (gop, bool) {
 			g.auto = v == "1"
 		case "delay":
 			g.delay, _ = strconv.Atoi(v)
+		case "ns":
+			g.ns, _ = strconv.Atoi(v)
+		case "sendfail":
+			g.sendFail = v == "1"
+		case "during":
+			p := strings.Split(v, ":")
+			if len(p) == 3 {
+				ns := &nestSpec{name: parseName(p[0]), cbp: p[1] == "1"}
+				ns.life, _ = strconv.Atoi(p[2])
+				g.during = ns
+			}
 		case "reply":
 			p := strings.Split(v, ":")
 			if len(p) == 3 && p[0] == "d" {
@@ -260,13 +292,27 @@ var genericComps = []string{"", "a", "b", "c", "d", "e", "f", "g", "h", "i"}
 // the face interface; the Interest must therefore be in the PIT before it is handed to the face.
 type lockedFace struct {
 	*dummy.DummyFace
-	mu    sync.Mutex
-	reply []byte // fed back into the engine during the next Send
-	fed   bool
+	mu     sync.Mutex
+	reply  []byte // fed back into the engine during the next Send
+	fed    bool
+	fail   bool   // the next Send fails
+	during func() // runs while the next Send is on the stack
 }
 
 func (f *lockedFace) Send(pkt enc.Wire) error {
 	f.mu.Lock()
+	fail, during := f.fail, f.during
+	f.fail, f.during = false, nil
+	if during != nil || fail {
+		f.mu.Unlock()
+		if during != nil {
+			during()
+		}
+		if fail {
+			return errors.New("send failed")
+		}
+		f.mu.Lock()
+	}
 	err := f.DummyFace.Send(pkt)
 	reply := f.reply
 	f.reply = nil
@@ -304,7 +350,8 @@ type world struct {
 	curIid      int
 }
 
-func (w *world) nowMs() int64 { return w.clock().Sub(w.start).Milliseconds() }
+// all times in the trace are nanoseconds since the start of the case (gops keep milliseconds, plus optional ns=)
+func (w *world) nowMs() int64 { return w.clock().Sub(w.start).Nanoseconds() }
 
 // delayTimer is the engine's real timer; the cancel function of a scheduled event can be made to take (virtual) time once:
 // that is how a run inside a synctest bubble gets "the timeout event fires while onData/onNack holds the PIT lock and
@@ -424,7 +471,7 @@ func (w *world) express(name []int, cbp bool, digK byte, digNm []int, digCid int
 			w.outs = append(w.outs, "ret err")
 			w.mu.Unlock()
 		}
-		return fmt.Sprintf("express - %s - %s", b01(cbp), lifeTxt(life))
+		return fmt.Sprintf("express - %s - %s", b01(cbp), lifeNs(life))
 	}
 	w.mu.Lock()
 	pid := w.nextPid
@@ -473,12 +520,13 @@ func (w *world) express(name []int, cbp bool, digK byte, digNm []int, digCid int
 	if err := w.eng.Express(enci, cb); err != nil {
 		w.mu.Lock()
 		w.outs = append(w.outs, "ret err")
+		delete(w.pidWire, pid) // nothing was transmitted for this Interest
 		w.mu.Unlock()
 	}
 	w.mu.Lock()
 	nm := w.keysOf(mkName(name))
 	w.mu.Unlock()
-	return fmt.Sprintf("express %s %s %s %s", nm, b01(cbp), digTxt, lifeTxt(life))
+	return fmt.Sprintf("express %s %s %s %s", nm, b01(cbp), digTxt, lifeNs(life))
 }
 
 func (w *world) handler(hid int) ndn.InterestHandler {
@@ -489,7 +537,7 @@ func (w *world) handler(hid int) ndn.InterestHandler {
 		}
 		iid := w.curIid
 		w.replies[iid] = args.Reply
-		w.outs = append(w.outs, fmt.Sprintf("handler %d %d", hid, args.Deadline.Sub(w.start).Milliseconds()))
+		w.outs = append(w.outs, fmt.Sprintf("handler %d %d", hid, args.Deadline.Sub(w.start).Nanoseconds()))
 	}
 }
 
@@ -626,13 +674,13 @@ func runCase(t *testing.T, ops []gop, cfg string) []string {
 		}
 		w.face = &lockedFace{DummyFace: dummy.NewDummyFace()}
 		var timer ndn.Timer
-		advance := func(ms int) { time.Sleep(time.Duration(ms) * time.Millisecond) }
+		advance := func(d time.Duration) { time.Sleep(d) }
 		wait := synctest.Wait
 		if cfg == "dummy" {
 			dt := dummy.NewTimer()
 			timer = dt
 			w.clock = dt.Now
-			advance = func(ms int) { dt.MoveForward(time.Duration(ms) * time.Millisecond) }
+			advance = func(d time.Duration) { dt.MoveForward(d) }
 			wait = func() {}
 		} else {
 			timer = delayTimer{Timer: basic.NewTimer(), w: w}
@@ -677,8 +725,24 @@ func runCase(t *testing.T, ops []gop, cfg string) []string {
 					w.face.reply = e.Encode(pkt).Join()
 				}
 				w.face.fed = false
+				w.face.fail = g.sendFail && (len(g.name) > 0 || g.digK != '-')
+				if g.during != nil && len(g.during.name) > 0 && (len(g.name) > 0 || g.digK != '-') {
+					du := g.during
+					w.face.during = func() {
+						txt := w.express(du.name, du.cbp, '-', nil, 0, du.life, nil)
+						w.mu.Lock()
+						w.nested = append(w.nested, "nop "+txt)
+						w.mu.Unlock()
+					}
+				}
+				nOuts := len(w.outs)
 				opTxt = w.express(g.name, g.cbp, g.digK, g.digNm, g.digCid, g.life, g.nest)
-				w.face.reply = nil
+				w.face.reply, w.face.fail, w.face.during = nil, false, nil
+				if len(w.outs) > nOuts && w.outs[len(w.outs)-1] == "ret err" && strings.HasPrefix(opTxt, "express ") && !strings.HasPrefix(opTxt, "express - ") {
+					opTxt = "expressfail " + strings.TrimPrefix(opTxt, "express ")
+				} else if g.sendFail && strings.HasPrefix(opTxt, "express - ") && g.digK != '-' {
+					opTxt = "expressfail " + strings.TrimPrefix(opTxt, "express ")
+				}
 				if w.face.fed && replyLine != "" {
 					w.mu.Lock()
 					w.nested = append([]string{replyLine}, w.nested...)
@@ -728,8 +792,8 @@ func runCase(t *testing.T, ops []gop, cfg string) []string {
 					opTxt = fmt.Sprintf("nackfire %s %d %d", w.keysOf(fn), g.reason, el)
 				}
 			case "adv":
-				opTxt = fmt.Sprintf("adv %d", g.ms)
-				advance(g.ms)
+				opTxt = fmt.Sprintf("adv %d", int64(g.ms)*1000000+int64(g.ns))
+				advance(time.Duration(g.ms)*time.Millisecond + time.Duration(g.ns))
 			case "attach":
 				opTxt = fmt.Sprintf("attach %s %d", w.keysOf(mkName(g.name)), g.hid)
 				if err := w.eng.AttachHandler(mkName(g.name), w.handler(g.hid)); err != nil {
@@ -766,7 +830,7 @@ func runCase(t *testing.T, ops []gop, cfg string) []string {
 				w.nextIid++
 				w.curIid = iid
 				w.iidTok[iid] = g.tok
-				opTxt = fmt.Sprintf("interest %s %s %s", w.keysOf(mkName(g.name)), lifeTxt(g.life), g.tok)
+				opTxt = fmt.Sprintf("interest %s %s %s", w.keysOf(mkName(g.name)), lifeNs(g.life), g.tok)
 				n0 := len(w.outs)
 				if err := w.face.FeedPacket(wire); err != nil {
 					w.outs = append(w.outs, "ret err")
@@ -1017,6 +1081,18 @@ func (g *genr) genCase() []gop {
 				if o.replyK == 'd' && len(o.replyNm) == 0 {
 					o.replyK = '-'
 				}
+			} else if g.reply && len(o.name) > 0 && g.r.Intn(3) == 0 {
+				// the face fails to send, and/or another Interest (mostly for the same PIT node) is expressed while Send is on the stack
+				o.sendFail = g.r.Intn(3) > 0
+				if g.r.Intn(3) > 0 {
+					o.during = &nestSpec{name: o.name, cbp: g.r.Intn(2) == 0, life: g.pick(lifetimes[:len(lifetimes)-1])}
+					if g.r.Intn(4) == 0 {
+						o.during.name = related()
+					}
+					if len(o.during.name) == 0 {
+						o.during.name = []int{1}
+					}
+				}
 			}
 			expressed = append(expressed, o.name)
 			if o.life >= 0 {
@@ -1055,7 +1131,11 @@ func (g *genr) genCase() []gop {
 				}
 			}
 			clock += ms
-			ops = append(ops, gop{kind: "adv", ms: ms})
+			o := gop{kind: "adv", ms: ms}
+			if g.r.Intn(6) == 0 {
+				o.ns = g.pick([]int{1, 999, 300000, 999999})
+			}
+			ops = append(ops, o)
 		default:
 			switch g.r.Intn(5) {
 			case 0, 1:
@@ -1106,6 +1186,14 @@ func (g *genr) fibBurst(alpha, depth int, nInt *int) []gop {
 			} else {
 				ops = append(ops, gop{kind: "detach", name: g.name(alpha, depth)})
 			}
+		case x < 6 && len(attached) > 0 && g.r.Intn(2) == 0:
+			// a reply at the deadline, and 1 ns / 300 us / 999.999 us / 1 ms after it (virtual time is not millisecond-aligned)
+			nm := append(append([]int{}, attached[g.r.Intn(len(attached))]...), 1)
+			life := g.pick([]int{1, 5, 10, 30})
+			ops = append(ops, gop{kind: "interest", name: nm, life: life, tok: "-"},
+				gop{kind: "adv", ms: life, ns: g.pick([]int{0, 1, 300000, 999999, 1000000})},
+				gop{kind: "reply", iid: *nInt})
+			*nInt++
 		case x < 8:
 			nm := g.name(alpha+1, depth+1)
 			if len(attached) > 0 && g.r.Intn(2) == 0 {
